@@ -2588,7 +2588,7 @@ fn core_word_exit(xs: &mut State) -> Xresult {
 
 fn core_word_display_stack(xs: &mut State) -> Xresult {
     let mut buf = String::new();
-    for x in xs.data_stack.iter().rev() {
+    for x in xs.data_stack[xs.ctx.ds_len..].iter().rev() {
         let s = xs.format_cell(x)?;
         buf.push_str(&s);
         buf.push_str("\n");
